@@ -4,7 +4,7 @@ cd /verif
 ids=$(/venv/bin/python -c "import json;print(' '.join(c['property_id'] for c in json.load(open('MANIFEST.json'))['checks']))")
 rc_all=0
 for id in $ids; do
-  out=$(./check $id --tier quick 2>&1); rc=$?
+  out=$(./check $id --tier quick ${WRITE_BASELINE:+--write-baseline} 2>&1); rc=$?
   echo "$out" | grep -E "^\[|^VIOLATION|^KNOWN|^CHECKER|^UNDECIDED" | cut -c1-200 | head -4
   echo "  -> $id exit=$rc"
   [ $rc -ne 0 ] && rc_all=1
